@@ -311,6 +311,11 @@ def explore_case(program, tier):
     # the moment of close swept over every position of every FIFO round (fault-free)
     for t, j in positions:
         one(close_at(program, t, j), [], 'closepos')
+    # the whole scope is aborted: all receivers and senders still running are closed in one go
+    if len(victims) > 1:
+        for t, j in positions:
+            if j <= 1:
+                one(F.abort_all_attack(program, t, j), [], 'closeall')
     for v in victims:
         for t, j in positions:
             one(F.until_attack(program, v, t, j, True), [], 'until')
